@@ -12,20 +12,21 @@ namespace Bolt.C04Bkt
 open Bolt Bolt.BTree Bolt.Bkt
 
 /-- well-formedness and the abstraction do not depend on the fuel once it suffices -/
-theorem wf_mono (fu fu' : Nat) (orig cur : Bk) (h : WF fu orig cur) (hle : fu ≤ fu') : WF fu' orig cur := by
-  sorry
+theorem wf_mono (fu fu' : Nat) (orig cur : Bk) (h : WF fu orig cur) (hle : fu ≤ fu') : WF fu' orig cur :=
+  ⟨BktMoveL.origOk_mono true fu orig h.1 fu' hle, BktMoveL.curOk_mono orig fu [] cur h.2 fu' hle⟩
 
 theorem abs_fuel (fu fu' : Nat) (orig cur : Bk) (h : WF fu orig cur) (hle : fu ≤ fu') :
     absTop fu' orig cur = absTop fu orig cur := by
-  sorry
+  unfold absTop
+  rw [BktMoveL.absBk_fuel orig fu [] cur h.2 h.1 fu' hle]
 
 /-- **MoveBucket** (when the model accepts it): the reference model moves the same bucket, with
     everything nested in it; `WF` is kept (with enough fuel for the new nesting depth) -/
 theorem move_refines (fu : Nat) (orig cur cur' : Bk) (src dst : List Bytes) (k : Bytes)
     (hw : WF fu orig cur) (h : moveAt fu src k dst cur = some cur') :
     ∃ fu', fu ≤ fu' ∧ WF fu' orig cur' ∧
-      apiMoveBucket (absTop fu orig cur) (apiPath src) k (apiPath dst) = .ok (absTop fu' orig cur') := by
-  sorry
+      apiMoveBucket (absTop fu orig cur) (apiPath src) k (apiPath dst) = .ok (absTop fu' orig cur') :=
+  BktMoveL.move_accepted fu orig cur cur' src dst k hw h
 
 /-- the refusals agree: when the bucket to move is opened with everything nested in it and the
     model refuses, the reference model refuses too -/
@@ -34,6 +35,7 @@ theorem move_refused (fu : Nat) (orig cur : Bk) (src dst : List Bytes) (k : Byte
     (hc : lookupBk k sb.opened = some c) (hfo : fullyOpened fu c = true)
     (h : moveAt fu src k dst cur = none) :
     ∃ e, apiMoveBucket (absTop fu orig cur) (apiPath src) k (apiPath dst) = .error e := by
-  sorry
+  obtain ⟨db, hdb⟩ := Option.isSome_iff_exists.mp hd
+  exact BktMoveL.move_refusal fu orig cur src dst k sb db c hw hs hdb hc hfo h
 
 end Bolt.C04Bkt
